@@ -45,7 +45,9 @@ def main():
     finally:
         subprocess.run(["git", "-C", "/repo", "worktree", "remove", "--force", wt])
         import hashlib, shutil
-        shutil.rmtree(V / ".work" / ("coq-" + hashlib.sha1(wt.encode()).hexdigest()[:10]), ignore_errors=True)   # the run's private Coq tree
+        _t = V / ".work" / ("coq-" + hashlib.sha1(wt.encode()).hexdigest()[:10])   # the run's private Coq tree
+        shutil.rmtree(_t, ignore_errors=True)
+        Path(str(_t) + ".synclock").unlink(missing_ok=True)
     p = d / "detection.json"
     old = json.loads(p.read_text()) if p.exists() else {}
     old.update(out)
